@@ -34,6 +34,17 @@ ROUND_TEXT = {
         "replaced by a default value); a change that makes two routes that the property says must agree drift apart by slightly more "
         "than the stated tolerance only at the extremes of the stated input range; an off-by-one in an index or slice helper; "
         "something order-dependent (the answer depends on what was called before)."),
+    5: ("This is a FIFTH round.  Earlier rounds already produced: slips in base functions, option threading, sequence branches, in-place "
+        "edits, dtype buffers, thresholds, caches, shared module-level or default-argument arrays, unstable reformulations, dropped "
+        "checks, augmented operators writing into shared storage, wrong class / length / shape in one branch, swallowed exceptions, "
+        "stateful iterators, print-option side effects, call-form combinations (unit + sequence + order; t= as ndarray; integer "
+        "counts).  Find something those do not cover.  Ideas: arguments that are legal but unusual as OBJECTS -- read-only arrays "
+        "(flags.writeable = False), non-contiguous or transposed views, Fortran-ordered arrays, 0-d arrays and NumPy scalars, "
+        "Python ints / bools / fractions where floats are usual, nested tuples, generators, a user subclass of a library class; "
+        "objects that went through copy.copy / copy.deepcopy / pickle; very long sequences (N = 1000) that take a different "
+        "(vectorised or chunked) path; keyword versus positional spelling of the same call; a conversion chain through three "
+        "classes (A -> B -> C versus A -> C); behaviour that depends on the ORDER of elements in a sequence or on an element being "
+        "repeated (the same object twice in a list); negative zero and denormal values inside the stated range."),
 }
 
 HUNT_TEXT = '''ALSO, BEFORE the mutants (about a third of your effort): hunt for inputs for which the UNMODIFIED tree already violates the property.  Read the statement and the quantifier literally and probe its corners systematically with small scripts: every class and call form it names, the extremes of the stated ranges, exact special values, multi-valued objects, every option value, both units, documented aliases, sequences of operations on one object.  Write what you find to {wt}/bughunt.md: for each violation a two-line reproduction, the value obtained and the value the property requires; if you find none, list briefly what you covered.  Do not fix anything.
